@@ -403,16 +403,17 @@ def compare_case(case, real, resp):
     the real code and the Float copy of the code-shaped model agree on such a NaN the case is outside
     the theorems' domain: it is counted and the rest of the case is not compared."""
     mode, exact = case_mode(case)
+    first_model = None
     for i, ((rm, rs), line) in enumerate(zip(real, resp)):
         dm, ds = split_resp(line)
         if not same_view(rs, ds, mode, exact):
             if mode == "F" and any(t in rm for t in NAN_TOKENS) and same_view(rm, dm, mode, exact):
                 STATS["float_nan_cases"] += 1
-                return None
+                break
             return (i, "spec", ds, rs)
-        if not same_view(rm, dm, mode, exact):
-            return (i, "model", dm, rm)
-    return None
+        if first_model is None and not same_view(rm, dm, mode, exact):
+            first_model = (i, "model", dm, rm)
+    return first_model
 
 
 def protocol_failure(d):
